@@ -781,7 +781,17 @@ func main() {
 		var n *lib.Node
 		class := ""
 		flags := "lattice"
-		switch i % 12 {
+		switch i % 14 {
+		case 12: // large multilinestrings: the mod-2 rule over many distinct end points
+			var s string
+			n, s = g.bigMlineCase()
+			class = "multiline_large"
+			sub["bigmline_"+s]++
+		case 13: // nested collections with typed empties next to non-empty members at every depth
+			var s string
+			n, s = g.mixedNestCase(o)
+			class = "collection_mixed_nest"
+			sub["mixed_nest_"+s]++
 		case 0, 1, 2:
 			var s string
 			n, s = g.polyGeom(o)
@@ -868,6 +878,9 @@ func main() {
 			flags += ",thorough"
 		}
 		classes[class]++
+		for k, v := range g.notes {
+			sub[k] += v
+		}
 		b := geo.Boundary()
 		bc := concreteBoundary(geo)
 		bb := b.Boundary()
